@@ -198,16 +198,13 @@ def check(prop, tier, seed, replay_path=None):
     exit_code = 0
     seen_kinds = set()
     for f in violations:
-        sig = (f["kind"], common.stable_hash(f.get("replay", {}).get("signature", f["what"])))
-        if f["kind"] in seen_kinds and len(seen_kinds) >= 1 and sig in seen_kinds:
-            continue
-        if f["kind"] in seen_kinds:
-            continue  # one replay per kind of failure is enough on the console; all are in the evidence
+        if f["kind"] in seen_kinds or len(seen_kinds) >= 8:
+            continue  # one replay per kind of failure on the console; all failures are counted in the evidence
         seen_kinds.add(f["kind"])
         rec = dict(f, property=prop, seed=seed, tier=tier, repo=REPO)
         path = common.write_replay(prop, rec)
         out_lines.append("VIOLATION property=%s replay=%s" % (prop, path))
-        out_lines.append("  %s: %s" % (f["kind"], f["what"]))
+        out_lines.append("  %s: %s" % (f["kind"], str(f["what"])[:600]))
         exit_code = 1
     if not violations and (broken or ctx.disagreements):
         rec = {"property": prop, "seed": seed, "tier": tier, "repo": REPO,
